@@ -242,7 +242,7 @@ def step (line : String) : String :=
     match parseU? ut, parseSeq? seqt with
     | some t, some seq =>
       let u := mkUni t []
-      let model := decodeKey u seq
+      let model := decodeKey64 u seq      -- Go's 64-bit `int` (differs from `decodeKey` only at math.MinInt64)
       match expected u seq spec with
       | .error e => s!"{showKey model}\t{impl}\tFAIL generator/parser disagrees with Spec: {e}"
       | .ok none => s!"{showKey model}\t{impl}\t-"
@@ -257,7 +257,7 @@ def step (line : String) : String :=
     | some t, some seq =>
       if impl = "none" then "none\tnone\t-" else
       let u := mkUni t []
-      let model := decodeKey u seq
+      let model := decodeKey64 u seq
       match expected u seq spec with
       | .error e => s!"{showKey model}\t{impl}\tFAIL generator/parser disagrees with Spec: {e}"
       | .ok none => s!"{showKey model}\t{impl}\t-"
@@ -347,7 +347,12 @@ has no meaning for — poisons the model column, so it is reported as broken cor
 open VaxisModel.Model.KeyBody in
 def genAgrees (line : String) : Bool :=
   let (op, _) := splitTab line
-  let decOK (u : Uni) (s : Seq) : Bool := decodeKeyGen u s == some (decodeKey u s)
+  let decOK (u : Uni) (s : Seq) : Bool :=
+    -- the interpreted body computes over ℤ like the hand model: compare them on the int64-adjusted sequence
+    let s64 : Seq := match s with
+      | .csi params fin => .csi (int64Params params) fin
+      | s => s
+    decodeKeyGen u s64 == some (decodeKey u s64)
   let strOK (u : Uni) (k : Key) : Bool := keyStringGen u k == some (keyString u k)
   let matOK (u : Uni) (k : Key) (r : Int) (m : Nat) : Bool := matchesGen u k r m == some («matches» u k r m)
   let mstrOK (u : Uni) (k : Key) (s : Str) : Bool := matchStringGen u k s == some (matchString u k s)
